@@ -1,0 +1,123 @@
+//go:build verif
+
+package lexer
+
+// Contracts for the verification machinery in /verif (comment-only; no executable code).
+//
+// specDelta/specKind/kindName/...: reference automaton generated from docs/5-definitions.md
+// absS/reachS/depthS: abstraction certificate (code state -> reference state), found by search, checked here.
+
+//@ import "github.com/moorara/algo/lexer"
+
+// ---- the abstract cursor every inputBuffer provides (proved for the real reader under C13) ----
+
+//@ ghost field inputBuffer.src []rune
+//@ ghost field inputBuffer.lb int
+//@ ghost field inputBuffer.fw int
+//@ ghost field inputBuffer.endErr error
+
+//@ ghost func posAt(b inputBuffer, i int) lexer.Position
+//@ ghost func lexText(s []rune, a int, b int) string
+//@ axiom forall s []rune, a int, b int :: {lexText(s, a, b)} len(lexText(s, a, b)) >= b - a
+//@ axiom forall s []rune, a int, b int :: {lexText(s, a, b)}
+//@   a + 2 <= b && (forall k int :: a <= k && k < b ==> 0 <= s[k] && s[k] <= 127)
+//@   ==> len(lexText(s, a, b)) == b - a && lexText(s, a, b)[1:len(lexText(s, a, b))-1] == lexText(s, a+1, b-1)
+
+//@ spec func cursorOK(b inputBuffer) bool = b != nil && 0 <= b.lb && b.lb <= b.fw && b.fw <= len(b.src) && b.endErr != nil
+
+//@ func (b inputBuffer) Next() (rune, error)
+//@   assumed
+//@   requires cursorOK(b)
+//@   modifies b.fw
+//@   ensures old(b.fw) < len(b.src) ==> result1 == nil && result0 == b.src[old(b.fw)] && b.fw == old(b.fw) + 1
+//@   ensures old(b.fw) >= len(b.src) ==> result1 == b.endErr && result0 == 0 && b.fw == old(b.fw)
+
+//@ func (b inputBuffer) Retract()
+//@   assumed
+//@   requires cursorOK(b) && b.fw > b.lb
+//@   modifies b.fw
+//@   ensures b.fw == old(b.fw) - 1
+
+//@ func (b inputBuffer) Lexeme() (string, lexer.Position)
+//@   assumed
+//@   requires cursorOK(b)
+//@   modifies b.lb
+//@   ensures b.lb == old(b.fw)
+//@   ensures result0 == lexText(b.src, old(b.lb), old(b.fw)) && result1 == posAt(b, old(b.lb))
+
+//@ func (b inputBuffer) Skip() lexer.Position
+//@   assumed
+//@   requires cursorOK(b)
+//@   modifies b.lb
+//@   ensures b.lb == old(b.fw)
+//@   ensures result == posAt(b, old(b.lb))
+
+// ---- the scanner ----
+
+//@ func advanceDFA(state int, r rune) int
+//@   pure
+//@   split state 0 54
+//@   ensures result == -1 || (1 <= result && result <= 54)
+//@   ensures !(0 <= state && state <= 54) ==> result == -1
+//@   ensures r < 9 || r > 126 ==> result == -1
+//@   ensures reachS(0) && absS(0) == 0 && depthS(0) == 0
+//@   ensures reachS(state) ==> absS(result) == specDelta(absS(state), r)
+//@   ensures reachS(state) && result != -1 ==> reachS(result) && depthS(result) <= depthS(state) + 1
+
+//@ ghost func run(s []rune, lb int, k int) int
+//@ axiom forall s []rune, lb int :: {run(s, lb, lb)} run(s, lb, lb) == 0
+//@ axiom forall s []rune, lb int, k int :: {run(s, lb, k)} k > lb ==> run(s, lb, k) == advanceDFA(run(s, lb, k-1), s[k-1])
+
+//@ spec func pendingOK(b inputBuffer, state int) bool =
+//@   cursorOK(b) && state == run(b.src, b.lb, b.fw) && reachS(state) && depthS(state) <= b.fw - b.lb
+//@   && (forall k int :: b.lb <= k && k < b.fw ==> 0 <= b.src[k] && b.src[k] <= 127)
+
+//@ func (l *Lexer) evalDFA(state int) lexer.Token
+//@   requires l != nil && pendingOK(l.in, state)
+//@   split state 0 54
+//@   modifies l.in.lb
+//@   ensures l.in.lb == old(l.in.fw)
+//@   ensures result.Terminal == kindName(specKind(absS(state)))
+//@   ensures result.Pos == posAt(l.in, old(l.in.lb))
+//@   ensures kindSkips(specKind(absS(state))) ==> result.Lexeme == ""
+//@   ensures kindIsLiteral(specKind(absS(state))) ==> result.Lexeme == kindName(specKind(absS(state)))
+//@   ensures specKind(absS(state)) == kindSTRING() || specKind(absS(state)) == kindREGEX()
+//@     ==> result.Lexeme == lexText(l.in.src, old(l.in.lb) + 1, old(l.in.fw) - 1)
+//@   ensures specKind(absS(state)) >= 0 && !kindSkips(specKind(absS(state))) && !kindIsLiteral(specKind(absS(state)))
+//@     && specKind(absS(state)) != kindSTRING() && specKind(absS(state)) != kindREGEX()
+//@     ==> result.Lexeme == lexText(l.in.src, old(l.in.lb), old(l.in.fw))
+
+// ---- NextToken: the longest-run token function of the source text ----
+//
+// longest(s, p): end of the longest run the scanner automaton can follow from p (unique by construction);
+// sigStart(s, p): start of the first significant token at or after p (separators and comments skipped).
+
+//@ ghost func longest(s []rune, p int) int
+//@ ghost func sigStart(s []rune, p int) int
+//@ spec func isLongest(s []rune, p int, e int) bool =
+//@   p <= e && e <= len(s) && (forall k int :: {run(s, p, k)} p <= k && k <= e ==> run(s, p, k) != -1)
+//@   && (e == len(s) || advanceDFA(run(s, p, e), s[e]) == -1)
+//@ axiom forall s []rune, p int, e int :: {run(s, p, e)} isLongest(s, p, e) ==> longest(s, p) == e
+//@ spec func kindAt(s []rune, p int) int = specKind(absS(run(s, p, longest(s, p))))
+//@ axiom forall s []rune, p int :: {sigStart(s, p)} p >= len(s) ==> sigStart(s, p) == p
+//@ axiom forall s []rune, p int :: {sigStart(s, p)} p < len(s) && !kindSkips(kindAt(s, p)) ==> sigStart(s, p) == p
+//@ axiom forall s []rune, p int :: {sigStart(s, p)} p < len(s) && kindSkips(kindAt(s, p)) && longest(s, p) > p
+//@   ==> sigStart(s, p) == sigStart(s, longest(s, p))
+
+//@ func (l *Lexer) NextToken() (lexer.Token, error)
+//@   requires l != nil && cursorOK(l.in) && l.in.lb == l.in.fw
+//@   modifies l.in.lb, l.in.fw
+//@   decreases len(l.in.src) - l.in.lb
+//@   loop[0] invariant cursorOK(l.in) && l.in.lb == old(l.in.lb)
+//@   loop[0] invariant curr == run(l.in.src, l.in.lb, l.in.fw) && curr != -1 && reachS(curr) && depthS(curr) <= l.in.fw - l.in.lb
+//@   loop[0] invariant forall k int :: l.in.lb <= k && k < l.in.fw ==> 0 <= l.in.src[k] && l.in.src[k] <= 127
+//@   loop[0] invariant forall k int :: {run(l.in.src, l.in.lb, k)} l.in.lb <= k && k <= l.in.fw ==> run(l.in.src, l.in.lb, k) != -1
+//@   loop[0] decreases len(l.in.src) - l.in.fw
+//@   ensures cursorOK(l.in) && l.in.lb == l.in.fw
+//@   ensures sigStart(l.in.src, old(l.in.lb)) >= len(l.in.src) ==> result1 == l.in.endErr
+//@   ensures sigStart(l.in.src, old(l.in.lb)) < len(l.in.src) && kindAt(l.in.src, sigStart(l.in.src, old(l.in.lb))) < 0
+//@     ==> result1 != nil
+//@   ensures sigStart(l.in.src, old(l.in.lb)) < len(l.in.src) && kindAt(l.in.src, sigStart(l.in.src, old(l.in.lb))) >= 0
+//@     ==> result1 == nil && l.in.lb == longest(l.in.src, sigStart(l.in.src, old(l.in.lb)))
+//@         && result0.Terminal == kindName(kindAt(l.in.src, sigStart(l.in.src, old(l.in.lb))))
+//@         && result0.Pos == posAt(l.in, sigStart(l.in.src, old(l.in.lb)))
